@@ -164,7 +164,8 @@ CLAIMED = {
             "configuration numbers are divided by the measurement spacing (and shifted so that the first is 1 after thermalisation), for "
             "equally spaced files they become first + position (induction), r_start / r_stop are located by NUMBER (exception iff absent), "
             "and the factors kept are exactly every r_step-th one from the start to the stop position (count and elements). check_idl "
-            "returns a string on every path (the UnboundLocalError for a complete list was found by this obligation and fixed).",
+            "returns a string on every path (the UnboundLocalError for a complete list was found by this obligation and fixed). _read_flow_obs: "
+            "configuration number = trajectory // steps // dtr_cnfg (first one moved to 1), r_start / r_stop located by number.",
             "DESIGN.md section 6 C17",
             "NOT decided: file discovery and ordering (_find_files, sort_names: regular expressions), the binary decoding of the factors "
             "(record loop: C18), openQCD 2.0 arrays, gradient-flow / ms5_xsf / sfcf / hadrons readers, several replicas and factors, that "
